@@ -559,6 +559,7 @@ func runPipeline(c *simrun.Ctx) *simrun.Violation {
 	sched := simhook.NewSched()
 	sched.MaxSteps = 600 + t.Draw("maxsteps", 1200)
 	sched.Ready = w.ready
+	sched.ExitOnStall = true // tasks share the (unsynchronised) transport state: they cannot be left to run freely
 	// map iteration order inside every task is decided by the tape as well
 	ordSeed := uint64(t.Draw("ordseed", 1<<30))
 	ordMode := t.Draw("ordmode", simhook.OrdModes)
